@@ -120,6 +120,7 @@ typedef struct sSymbolEntry {
     TempResult SymWert;
     Boolean    ValueWasModified; /* value patched after definition (label behind padding) */
     LargeInt   UnmodifiedValue;  /* ...and the value it was originally entered with */
+    struct sSymbolEntry* pGlobalCopy; /* copy in another section, made on behalf of GLOBAL */
     PCrossRef  RefList;
     Byte       FileNum;
     LongInt    LineNum;
@@ -2262,6 +2263,12 @@ static void EnterSymbol(PSymbolEntry Neu, Boolean MayChange, LongInt ResHandle) 
                        = Copy->SymWert.Contents.str.capacity = l);
             }
             EnterTree(&TreeRoot, &(Copy->Tree), SymbolAdder, &EnterStruct);
+
+            /* if the copy was accepted, remember it: ChangeSymbol() has to change both */
+
+            if (SearchTree(TreeRoot, CombName, Lauf->DestSection) == &Copy->Tree) {
+                Neu->pGlobalCopy = Copy;
+            }
         }
         if (Lauf) {
             free(Lauf->Name);
@@ -2298,6 +2305,9 @@ void ChangeSymbol(PSymbolEntry pEntry, LargeInt Value) {
         pEntry->UnmodifiedValue  = pEntry->SymWert.Contents.Int;
     }
     as_tempres_set_int(&pEntry->SymWert, Value);
+    if (pEntry->pGlobalCopy) {
+        ChangeSymbol(pEntry->pGlobalCopy, Value);
+    }
 }
 
 /*!------------------------------------------------------------------------
